@@ -366,7 +366,7 @@ def shared_freelist(ctx, rule='C06.shared-freelist'):
             for e in evs:
                 if e['ev'] == 'P' or (e['ev'] == 'R' and e.get('shared_ptr')):
                     n += 1
-                    owner = f.owner if f.kind == 'Closure' else f
+                    owner = (f.owner or f) if f.kind == 'Closure' else f
                     import c03
                     if owner is dbopen or owner in commit_fns or c03._only_via(F, owner, dbopen):
                         continue
@@ -432,7 +432,7 @@ def shared_state(ctx, rule='C06.shared-state'):
                 if last_seg(adt) == 'DBInner' and fld in fields and fld not in _KNOWN_SHARED:
                     ty = fields[fld]
                     if 'Atomic' in ty or 'Cell<' in ty or ty.startswith('std::sync::Mutex<') or ty.startswith('std::sync::RwLock<'):
-                        owner = f.owner if f.kind == 'Closure' else f
+                        owner = (f.owner or f) if f.kind == 'Closure' else f
                         if rd:
                             readers.setdefault(fld, set()).add(owner)
                         if how:
